@@ -305,7 +305,8 @@ def dec_anyhist(tier, seed, path):
 
 def dec_frames(tier, seed, path):
     n = 300 if tier == 'quick' else 10000
-    return dec_gen.write(path, dec_gen.frames(seed + 17, n, 'c'))
+    import itertools
+    return dec_gen.write(path, itertools.chain(dec_gen.bit_sweep(seed + 18, 'bit'), dec_gen.frames(seed + 17, n, 'c')))
 
 
 def dec_tecmp(tier, seed, path):
@@ -459,8 +460,8 @@ PROPS = {
                     'Non-trivial = distinct operations (tree stage) / distinct episodes containing updates and removals (random stage).',
             'assumptions': COMMON_ASSUMPTIONS},
     'C14': {'level': 'model_checking', 'stages': [VAL_MC, VAL_RANDOM], 'nontrivial_case': nt_val,
-            'rule': 'MC_Values: the complete state graph of a 3-slot object store over 8 values (empty packet, zero-length '
-                    'payloads of two types, data packet, one payload byte changed, one header field changed, two status packets) '
+            'rule': 'MC_Values: the complete state graph of a 3-slot object store over 11 values (empty packet, zero-length '
+                    'payloads of two types, data packet, one payload byte changed, one header field changed, another message type, invalid-typed payload, status packets with one-byte payloads) '
                     'under make / copy-construct / move-construct / copy-assign (incl. self and equal-looking targets) / '
                     'move-assign / mutate / equality; one path per transition replayed on real Packet objects with full snapshots '
                     'of every slot after every operation; plus seeded random sequences on Packet, Payload and TECMP::Payload '
